@@ -179,6 +179,9 @@ PROPS = {
     ),
 }
 
+PROPS['C01']['unsafe_census'] = True
+PROPS['C09']['unsafe_census'] = True
+
 # C08 = O1 (overflow freedom of the whole load / walk / decode path: every V obligation of
 # the parse-path properties, Verus checks overflow natively) + O2 (bit validity of
 # enum-typed fields, generated) + O3 (extracted text independent of features / profile).
